@@ -1,11 +1,11 @@
 SPECIFICATION Spec
 CONSTANTS
-  MaxAttempts = 2
-  MaxDup = 1
+  MaxAttempts = 3
+  MaxDup = 0
   Thetas <- ThetasTwo
   Gap = 12
   ItemCap = 2
   ReusePorts = FALSE
-  StrictGap = FALSE
-  FwdStamps <- FwdNone
+  StrictGap = TRUE
+  FwdStamps <- FwdAll
 INVARIANTS SameExchange HalfRTT PrevConsistent NoPanic
